@@ -39,6 +39,25 @@ Proof. apply n_list_eqb_eq. vm_compute. reflexivity. Qed.
 Theorem parser_unchanged : parser_rule_names = base_parser_rule_names /\ parser_atn = base_parser_atn.
 Proof. split; [reflexivity | apply n_list_eqb_eq; vm_compute; reflexivity]. Qed.
 
+(* ---- the code around the automata: listener dispatch and the parser package ---- *)
+
+(* every parse-tree context class calls the listener method named after its rule, on entry and on exit *)
+Theorem parser_dispatch_unchanged : parser_dispatch = base_parser_dispatch.
+Proof. reflexivity. Qed.
+
+(* the aggregator listens to exactly the four callbacks the model's agg_step composes:
+   enterDocumented_command, enterCommand_invocation, enterDocumented_module, enterBracket_doccomment;
+   it overrides no exit callback *)
+Theorem aggregator_listener_methods_unchanged :
+  aggregator_listener_methods
+  = [s"enterDocumented_command"; s"enterCommand_invocation"; s"enterDocumented_module"; s"enterBracket_doccomment"].
+Proof. reflexivity. Qed.
+
+(* the generated lexer / parser / listener modules and the error listeners are, up to layout, comments and
+   docstrings, the code the model was validated against *)
+Theorem parser_package_unchanged : parser_package_digests = base_parser_package_digests.
+Proof. reflexivity. Qed.
+
 (* ---- the model's tables are the grammar's ---- *)
 
 (* the ANTLR name of each token kind of the model *)
